@@ -163,6 +163,28 @@ def run(cx):
     cx.ob("R-PY-SOURCE", "lossless-source", bool(ok), b["span"],
           "the lexed text is the PyString extracted losslessly (%s)" % conv if ok else
           "the text given to lex_program comes from %s: a lossy conversion makes offsets describe a different string than the caller's" % conv)
+    # --- Python side: the wrapper hands the caller's string to the extension unchanged -----------------
+    try:
+        tree = ast.parse(open(os.path.join(pydir, "lexer.py")).read())
+    except (OSError, SyntaxError):
+        tree = None
+    okp, whyp = False, "lex_program_from_str not found in src/sas_lexer/lexer.py"
+    if tree is not None:
+        for node in ast.walk(tree):
+            if isinstance(node, ast.FunctionDef) and node.name == "lex_program_from_str":
+                params = [a.arg for a in node.args.args]
+                calls = [c for c in ast.walk(node) if isinstance(c, ast.Call) and isinstance(c.func, ast.Name) and c.func.id == "_lex_program_from_str"]
+                rebound = [t for st_ in ast.walk(node) for t in (getattr(st_, "targets", None) or [getattr(st_, "target", None)])
+                           if isinstance(st_, (ast.Assign, ast.AugAssign, ast.AnnAssign)) and isinstance(t, ast.Name) and t.id in params]
+                if len(calls) != 1 or len(calls[0].args) != 1 or calls[0].keywords:
+                    whyp = "lex_program_from_str does not make exactly one call _lex_program_from_str(<source>)"
+                elif not (isinstance(calls[0].args[0], ast.Name) and calls[0].args[0].id in params):
+                    whyp = "the text passed to the extension is %s, not the caller's string: offsets then describe a different string" % ast.unparse(calls[0].args[0])
+                elif rebound:
+                    whyp = "parameter %s is re-assigned before the call" % rebound[0].id
+                else:
+                    okp, whyp = True, "the wrapper passes its parameter `%s` to the extension unchanged" % calls[0].args[0].id
+    cx.ob("R-PY-SOURCE", "python-passthrough", okp, "src/sas_lexer/lexer.py", whyp)
     cx.count("R-WIRE", "fields", nfields)
     cx.count("R-ENUMS", "values", nvals)
     cx.assume("rmp_serde / serde_repr / msgspec positional encoding contracts; runtime behaviour of the published crate is outside the tree")
